@@ -14,6 +14,7 @@ EXPLANATION = (
     '(R2 also: the zero-delay container is filled by add alone; R5, shared with C01.R2) every insertion and look-up derives the bucket from the timestamp by the same expression. '
     '(R6, shared with C08.R7) a send for the current instant is walked inline, only a later one becomes an event. '
     '(R2 also: every construction of the calendar queue initialises the bound `add` compares with - the current instant - to the constant zero, whatever start time is configured.) '
+    '(R7, shared with C09.R3) what a handler emitted is scheduled before anything the shutdown handling schedules for the same instant. '
     "Decides these necessary conditions only; not the end-to-end tie order of histories.")
 ASSUMPTIONS = ["VecDeque::push_back/pop_front are opposite ends; Vec::drain(..) yields in index order"]
 USES_B = True
